@@ -65,10 +65,12 @@ package protocol
 //@   ensures  #del: result.1 == nil ==> result.0.Del != nil
 
 //@ func ParsePExpireCommand(cmd redcon.Command) (*PExpire, error)
-//@   props C16
+//@   props C16 C15
 //@   flag termination
 //@   requires #args: len(cmd.Args) >= 1
 //@   ensures  #nonnil: result.1 == nil ==> result.0 != nil
+//@   ensures  #milliseconds_become_a_duration [C15] internal: result.1 == nil && -9000000000000 < milliseconds && milliseconds < 9000000000000 ==> result.0.Milliseconds == milliseconds * 1000000
+//@   ensures  #addresses [C15] internal: result.1 == nil ==> result.0.DMap == bstr(cmd.Args[1]) && result.0.Key == bstr(cmd.Args[2])
 
 //@ func ParseExpireCommand(cmd redcon.Command) (*Expire, error)
 //@   props C16
@@ -218,6 +220,8 @@ package protocol
 //@ import redis "github.com/redis/go-redis/v9"
 //@ import entry "github.com/olric-data/olric/internal/kvstore/entry"
 //@ ghost field redis.StatusCmd.kind string
+// ms: the timeout in milliseconds a DM.PEXPIRE command carries
+//@ ghost field redis.StatusCmd.ms int64
 
 //@ func (p *Put) Command(ctx context.Context) *redis.StatusCmd
 //@   props C15
@@ -231,6 +235,7 @@ package protocol
 //@   trusted
 //@   requires #recv: p != nil
 //@   ensures #kind: result != nil && fresh(result) && result.kind == "dm.pexpire"
+//@   ensures #carries_milliseconds: result.ms == p.Milliseconds / 1000000
 //@   modifies nothing
 
 // ConvertError maps an error to its protocol error; nil stays nil and a failure stays a failure.
